@@ -62,6 +62,39 @@ func genLpm(cfg Config, emit func(string, bool, []string)) {
 		add := func(f string, a ...any) { ops = append(ops, fmt.Sprintf(f, a...)) }
 		nv, ni := 1, 0
 		kinds := []string{"all", "prefix", "lb"}
+		if c%10 == 4 {
+			// two transaction objects: the first one is re-targeted (Txn.Reuse) at a trie that the
+			// second one committed; its writes never show in that trie
+			d1, l1 := key()
+			d2, l2 := key()
+			d3, l3 := key()
+			add("txn 0")
+			add("ins %s %d 1", d1, l1)
+			if r.IntN(2) == 0 {
+				add("q all %s %d", d1, l1)
+			}
+			add("commit")
+			nv++
+			add("txn %d", nv-1)
+			add("ins %s %d 2", d2, l2)
+			add("ins %s %d 3", d3, l3)
+			add("commit")
+			nv++
+			add("vdump %d", nv-1)
+			add("reuse0 %d", nv-1)
+			add("ins %s %d 92", d2, l2)
+			add("del %s %d", d3, l3)
+			add("ins %s %d 91", d1, l1)
+			add("vdump %d", nv-1)
+			add("vq %d all x 0", nv-1)
+			if r.IntN(2) == 0 {
+				add("abandon")
+			} else {
+				add("commit")
+				nv++
+			}
+			add("vq %d all x 0", nv-1)
+		}
 		for t := 0; t < 1+r.IntN(maxTx); t++ {
 			base := nv - 1
 			if r.IntN(4) == 0 {
@@ -175,6 +208,7 @@ type lpmExec struct {
 	refs     []map[string]lpmEnt
 	txn      *lpm.Txn[int]
 	lastTxn  *lpm.Txn[int] // the most recent transaction object, kept after Commit / abandon for Reuse
+	firstTxn *lpm.Txn[int] // the first transaction object of the case
 	tref     map[string]lpmEnt
 	iters    []*lpmIt
 }
@@ -314,18 +348,24 @@ func (e *lpmExec) Do(o *Out, f []string) string {
 		}
 	}
 	switch f[0] {
-	case "txn", "reuse":
+	case "txn", "reuse", "reuse0":
 		v := atoi(f[1])
 		if v >= len(e.versions) {
 			return "bad-op"
 		}
-		if f[0] == "reuse" && e.lastTxn != nil {
+		if f[0] == "reuse0" && e.firstTxn != nil {
+			// the FIRST transaction object of the case, re-targeted after others have committed
+			e.txn = e.firstTxn.Reuse(e.versions[v])
+		} else if f[0] == "reuse" && e.lastTxn != nil {
 			// Txn.Reuse: an earlier transaction object (committed or abandoned, not cleared) re-targeted at a trie
 			e.txn = e.lastTxn.Reuse(e.versions[v])
 		} else {
 			e.txn = e.versions[v].Txn()
 		}
 		e.lastTxn = e.txn
+		if e.firstTxn == nil {
+			e.firstTxn = e.txn
+		}
 		e.tref = map[string]lpmEnt{}
 		for k, x := range e.refs[v] {
 			e.tref[k] = x
